@@ -73,7 +73,8 @@ def translate():
     i4 = importlib.import_module('C07_init_data').run(vf.REPO, out_dir)
     i5 = importlib.import_module('C07_rewire').run(vf.REPO, out_dir)
     i6 = importlib.import_module('C07_packages').run(vf.REPO, out_dir)
-    return [i1, i2, i3, i4, i5, i6]
+    i7 = importlib.import_module('C07_handles').run(vf.REPO, out_dir)
+    return [i1, i2, i3, i4, i5, i6, i7]
 
 
 # ---------------------------------------------------------------------------------------------- environment
@@ -320,6 +321,87 @@ def run_pkg(case):
             'chem_lists': [[ids.index(i) for i in t.chemicals.IDs] for t in store]}
 
 
+# ---------------------------------------------------------------------------------------------- packages over changing chemicals
+def run_pkghist_ops(case, strict=False):
+    store = [build_hist_chem(s) for s in case['chems']]
+    pstore, oks = [], []
+    tmo = env()['tmo']
+    for kind, o in case['ops']:
+        try:
+            if kind == 'chem': apply_hist_op(store, o)
+            elif o[0] == 'new': pstore.append(tmo.Thermo([store[i] for i in o[1]], skip_checks=True))
+            elif o[0] == 'subset': pstore.append(pstore[o[1]].subset([store[i] for i in o[2]]))
+            elif o[0] == 'extended': pstore.append(pstore[o[1]].extended([store[i] for i in o[2]]))
+            elif o[0] == 'ideal': pstore.append(pstore[o[1]].ideal())
+            oks.append(True)
+        except (TypeError, ValueError, AttributeError, RuntimeError) as ex:
+            oks.append(type(ex).__name__)
+    return store, pstore, oks
+
+
+def run_pkghist(case):
+    rec = {'I': {}, 'J': {}}
+    with harvest_integrals(rec):
+        store, pstore, oks = run_pkghist_ops(case)
+        vals = []
+        for kind, k, ph, mol, T, P in case['obs']:
+            mx = pstore[k].mixture
+            if kind == 'H': vals.append(observe(mx.H, ph, mol, T, P))
+            elif kind == 'S': vals.append(observe(mx.S, ph, mol, T, P))
+            else: vals.append(observe(mx.Cn, ph, mol, T))
+    tdp = getattr(sys.modules['thermosteam._chemical'], 'TDependentProperty', None)
+    if tdp is not None: tdp.RAISE_PROPERTY_CALCULATION_ERROR = True
+    ids = [c.ID for c in store]
+    return {'oks': oks, 'vals': vals, 'chem_lists': [[ids.index(i) for i in t.chemicals.IDs] for t in pstore],
+            'tabI': [[list(k), v] for k, v in sorted(rec['I'].items())], 'tabJ': [[list(k), v] for k, v in sorted(rec['J'].items())]}
+
+
+def gen_pkghist(rng):
+    """packages are built FIRST, then the chemicals are edited through their public API, then more packages are derived"""
+    def hspec():
+        return {'pr': rng.choice('slg'), 'Tm': rng.choice(TMS), 'Tb': rng.choice(TBS), 'Hfus': rng.choice(VALS[1:6]),
+                'Sfus': rng.choice(VALS[3:7]), 'S0': rng.choice(VALS[:7]), 'cn': [rng.choice(HCN) for _ in range(3)], 'hv': rng.choice(HHV)}
+    nc = rng.randint(2, 3)
+    chems = [hspec() for _ in range(nc)]
+    first = rng.sample(range(nc), rng.randint(2, nc))
+    ops = [['pkg', ['new', first]]]
+    pk = [list(first)]; ideal = [False]
+    for _ in range(rng.randint(2, 6)):
+        r = rng.random()
+        if r < 0.6:
+            i = rng.randrange(nc)
+            r2 = rng.random()
+            if r2 < 0.45:
+                w = rng.choice(['Tm', 'Tb', 'Hfus', 'Sfus', 'S0'])
+                ops.append(['chem', ['setsc', i, w, rng.choice(TMS if w == 'Tm' else TBS if w == 'Tb' else VALS[1:7])]])
+            elif r2 < 0.6: ops.append(['chem', ['setpr', i, rng.choice('slg')]])
+            elif r2 < 0.7: ops.append(['chem', ['reset', i]])
+            elif r2 < 0.82: ops.append(['chem', ['mutcn', i, [rng.choice(HCN) for _ in range(3)]]])
+            elif r2 < 0.9: ops.append(['chem', ['muthv', i, rng.choice(HHV)]])
+            else:
+                j = rng.choice([k for k in range(nc) if k != i])
+                ops.append(['chem', ['copymodels', i, j, rng.choice([['Hvap'], ['Cn'], ['Cn', 'Hvap']])]])
+        else:
+            i = rng.randrange(len(pk)); cur = pk[i]
+            r2 = rng.random()
+            if r2 < 0.5:
+                sel = list(cur); rng.shuffle(sel); ops.append(['pkg', ['subset', i, sel]]); pk.append(sel); ideal.append(ideal[i])
+            elif r2 < 0.7 and len(cur) > 1:
+                sel = rng.sample(cur, rng.randint(1, len(cur) - 1)); ops.append(['pkg', ['subset', i, sel]]); pk.append(sel); ideal.append(ideal[i])
+            elif r2 < 0.85 and not ideal[i]:
+                extra = rng.sample(range(nc), 1); ops.append(['pkg', ['extended', i, extra]]); pk.append(cur + [x for x in extra if x not in cur]); ideal.append(False)
+            else:
+                ops.append(['pkg', ['ideal', i]]); pk.append(list(cur)); ideal.append(True)
+    obs = []
+    for k, cur in enumerate(pk):
+        for _ in range(2):
+            mol = [rng.choice(MOLS) for _ in cur]
+            if rng.random() < 0.4:
+                j = rng.randrange(len(cur)); mol = [0.] * len(cur); mol[j] = rng.choice(MOLS[1:])
+            obs.append([rng.choice(['H', 'S', 'Cn']), k, rng.choice('slg'), mol, rng.choice(TS[:4]), rng.choice(PS[:4])])
+    return {'type': 'pkghist', 'chems': chems, 'ops': ops, 'obs': obs, 'ln': [0., 1.]}
+
+
 # ---------------------------------------------------------------------------------------------- histories
 class harvest_integrals:
     """records (constant of the handle, a, b) -> value of every integral the real heat-capacity handles compute"""
@@ -335,7 +417,7 @@ class harvest_integrals:
                 self.saved.append((cls, name, cls.__dict__.get(name)))
                 def wrapped(self_, a, b, _orig=orig, _key=key):
                     r = _orig(self_, a, b)
-                    rec[_key][(float(self_(300.)), float(a), float(b))] = float(r)
+                    rec[_key][(float(self_.T_dependent_property(300.)), float(a), float(b))] = float(r)
                     return r
                 setattr(cls, name, wrapped)
     def __exit__(self, *a):
@@ -361,8 +443,10 @@ def build_hist_chem(spec):
     c = tmo.Chemical(f'C07h{e["n"]}_', cache=False, search_db=False, MW=16., Hf=0., S0=spec['S0'], Tm=spec['Tm'], Tb=spec['Tb'],
                      Hfus=spec['Hfus'], Sfus=spec['Sfus'], phase_ref=spec['pr'])
     for ph, v in zip('slg', spec['cn']):
-        getattr(c.Cn, ph).add_method(v)          # the unnamed user method ('USER_METHOD'), as users define models
+        select_const(getattr(c.Cn, ph), HCN, v)  # registers the named alternatives, so that later changes are pure method switches
+        getattr(c.Cn, ph).add_method(v)          # the unnamed user method ('USER_METHOD'), as users define models; it is the active one
     if spec['hv'] is not None:
+        select_const(c.Hvap, HHV, spec['hv'])
         c.Hvap.add_method(spec['hv'])
     c.reset_free_energies()
     return c
@@ -397,23 +481,42 @@ def apply_hist_op(store, o):
     else: raise ValueError(name)
 
 
+def probe(store, cnq):
+    """what a user sees when looking at the chemicals' own models: Cn of each phase at the query temperatures, Hvap(Tb).
+    Done after construction and after every operation, so that state kept between calls (a memo) would show."""
+    cn, hv = [], []
+    first = {}
+    for ph, T in cnq: first.setdefault(ph, T)
+    n = len(cnq)
+    cnq = list(cnq) + [[ph, T] for ph, T in first.items()]      # every handle ends at the temperature its next look starts with
+    for c in store:
+        if c.locked_state: cn.append([observe(c.Cn, T) for ph, T in cnq][:n])
+        else: cn.append([observe(c.Cn, ph, T) for ph, T in cnq][:n])
+        hv.append(observe(c.Hvap, c.Tb) if c.Hvap and c.Tb else ['none'])
+    return cn, hv
+
+
 def run_hist(case):
     rec = {'I': {}, 'J': {}}
+    cnq = [[ph, T] for fn, ph, T, P in case['queries']]
     with harvest_integrals(rec):
         store = [build_hist_chem(s) for s in case['chems']]
+        probe(store, cnq)
         oks = []
         for o in case['ops']:
             try:
                 apply_hist_op(store, o); oks.append(True)
             except (TypeError, ValueError, AttributeError, RuntimeError) as ex:
                 oks.append(type(ex).__name__)
+            probe(store, cnq)
+        cnvals, hvvals = probe(store, cnq)
         vals = []
         for c in store:
             hH, hS = handle_of(c, 'H'), handle_of(c, 'S')
             vals.append([observe(hH if fn == 'H' else hS, ph, T, P) for fn, ph, T, P in case['queries']])
     tdp = getattr(sys.modules['thermosteam._chemical'], 'TDependentProperty', None)
     if tdp is not None: tdp.RAISE_PROPERTY_CALCULATION_ERROR = True
-    return {'oks': oks, 'hvals': vals, 'vals': [v for row in vals for v in row],
+    return {'oks': oks, 'hvals': vals, 'cnvals': cnvals, 'hvvals': hvvals, 'vals': [v for row in vals for v in row],
             'tabI': [[list(k), v] for k, v in sorted(rec['I'].items())], 'tabJ': [[list(k), v] for k, v in sorted(rec['J'].items())]}
 
 
@@ -453,7 +556,7 @@ def gen_hist(rng):
         elif r < 0.84:
             ops.append(['setpr', i, rng.choice('slg')])
         elif r < 0.96:
-            w = rng.choice(['Tm', 'Tb', 'Hfus', 'Sfus'])
+            w = rng.choice(['Tm', 'Tb', 'Hfus', 'Sfus', 'S0'])
             ops.append(['setsc', i, w, rng.choice(TMS if w == 'Tm' else TBS if w == 'Tb' else VALS[1:7])])
         else:
             ops.append(['reset', i])
@@ -544,8 +647,12 @@ def gen_cases(rng, tier):
             c = gen_hist(rng); c['ln'] = ln
             cases.append(c)
             continue
-        if k < 24:
+        if k < 20:
             c = gen_pkg(rng); c['ln'] = ln
+            cases.append(c)
+            continue
+        if k < 32:
+            c = gen_pkghist(rng); c['ln'] = ln
             cases.append(c)
             continue
         if r < 0.16:
@@ -611,6 +718,9 @@ def run_impl(case):
     if case['type'] == 'pkg':
         with patched_log(case['ln']):
             return run_pkg(case)
+    if case['type'] == 'pkghist':
+        with patched_log(case['ln']):
+            return run_pkghist(case)
     with patched_log(case['ln']):
         if case['type'] == 'chem':
             c, rec, err = build_chem(case['chem'])
@@ -693,6 +803,8 @@ def coq_case(case, out):
         return f'(sfus_case {qo(case["Hfus"])} {qo(case["Tm"])} {so(out["stored_Hfus"])} {so(out["stored_Tm"])} {cpyv(out["Sfus"])})'
     if case['type'] == 'hist':
         return coq_hist(case, out, lnc, lnd)
+    if case['type'] == 'pkghist':
+        return coq_pkghist(case, out, lnc, lnd)
     if case['type'] == 'pkg':
         if any(out['wiring_err']):
             raise ValueError('wiring raised while building a package case')
@@ -744,9 +856,62 @@ def coq_case(case, out):
 MN = {'Cn': 'MCn', 'Hvap': 'MHvap'}
 
 
+def coq_cc(v):
+    return f'({qo(v[0])}, {qo(v[1])}, {qo(v[2])})'
+
+
+def coq_hop(o):
+    n, i = o[0], f'{o[1]}%nat'
+    if n == 'reset': return f'(OReset _ _ _ {i})'
+    if n == 'copy': return f'(OCopy _ _ _ {i})'
+    if n in ('mutcn', 'redefcn'): return f'(OMutCn _ _ _ {i} {coq_cc(o[2])})'
+    if n == 'muthv': return f'(OMutHv _ _ _ {i} {qo(o[2])})'
+    if n == 'copymodels': return f'(OCopyModels _ _ _ {i} {o[2]}%nat {clist([MN.get(x, "MOther") for x in o[3]])})'
+    if n == 'atstate': return f'(OAtState _ _ _ {i} {PHC[o[2]]})'
+    if n == 'atstatecopy': return f'(OAtStateCopy _ _ _ {i} {PHC[o[2]]})'
+    if n == 'setpr': return f'(OSetPr _ _ _ {i} {PHC[o[2]]})'
+    if n == 'setsc': return f'(OSetSc _ _ _ {i} W{o[2]} (set_{o[2]} {q(o[3])}))'
+    raise ValueError(n)
+
+
+def coq_ctab(t):
+    return clist([f'({q(k[0])}, {q(k[1])}, {q(k[2])}, {q(v)})' for k, v in t])
+
+
+def coq_hspecs(chems):
+    return clist([f'({PHC[s["pr"]]}, mkSc {qo(s["Tm"])} {qo(s["Tb"])} {qo(s["Hfus"])} {qo(s["Sfus"])} {qo(s["S0"])}, {qo(s["hv"])}, {coq_cc(s["cn"])})'
+                  for s in chems])
+
+
+def coq_pkgop(o):
+    def nl(x): return clist([f'{i}%nat' for i in x])
+    if o[0] == 'new': return f'(PNew {nl(o[1])})'
+    if o[0] == 'subset': return f'(PSubset {o[1]}%nat {nl(o[2])})'
+    if o[0] == 'extended': return f'(PExtended {o[1]}%nat {nl(o[2])})'
+    return f'(PIdeal {o[1]}%nat)'
+
+
+def coq_pobs(obs):
+    out = []
+    for kind, k, ph, mol, T, P in obs:
+        if kind == 'Cn': out.append(f'(PoCn {k}%nat {PHC[ph]} {cmol(mol)} {qo(T)})')
+        else: out.append(f'(Po{kind} {k}%nat {PHC[ph]} {cmol(mol)} {qo(T)} {qo(P)})')
+    return clist(out)
+
+
+def coq_pkghist(case, out, lnc, lnd):
+    ops = []
+    for (kind, o), ok in zip(case['ops'], out['oks']):
+        if ok is not True: continue
+        ops.append(coq_pkgop(o) if kind == 'pkg' else f'(PChem (hrun1 {coq_hop(o)}))')
+    cl = clist([clist([f'{i}%nat' for i in x]) for x in out['chem_lists']])
+    exp = clist([cpyv(v) for v in out['vals']])
+    return (f'(pkghist_case {lnc} {lnd} {coq_ctab(out["tabI"])} {coq_ctab(out["tabJ"])} {coq_hspecs(case["chems"])} '
+            f'({clist(ops)} : list (pop hstate)) {cl} {coq_pobs(case["obs"])} {exp})')
+
+
 def coq_hist(case, out, lnc, lnd):
-    def cc(v):
-        return f'({qo(v[0])}, {qo(v[1])}, {qo(v[2])})'
+    cc = coq_cc
     def tab(t):
         return clist([f'({q(k[0])}, {q(k[1])}, {q(k[2])}, {q(v)})' for k, v in t])
     specs = clist([f'({PHC[s["pr"]]}, mkSc {qo(s["Tm"])} {qo(s["Tb"])} {qo(s["Hfus"])} {qo(s["Sfus"])} {qo(s["S0"])}, {qo(s["hv"])}, {cc(s["cn"])})'
@@ -755,19 +920,14 @@ def coq_hist(case, out, lnc, lnd):
     for o, ok in zip(case['ops'], out['oks']):
         if ok is not True:
             continue            # the call raised: no state change is expected
-        n, i = o[0], f'{o[1]}%nat'
-        if n == 'reset': ops.append(f'(OReset _ _ _ {i})')
-        elif n == 'copy': ops.append(f'(OCopy _ _ _ {i})')
-        elif n in ('mutcn', 'redefcn'): ops.append(f'(OMutCn _ _ _ {i} {cc(o[2])})')
-        elif n == 'muthv': ops.append(f'(OMutHv _ _ _ {i} {qo(o[2])})')
-        elif n == 'copymodels': ops.append(f'(OCopyModels _ _ _ {i} {o[2]}%nat {clist([MN.get(x, "MOther") for x in o[3]])})')
-        elif n == 'atstate': ops.append(f'(OAtState _ _ _ {i} {PHC[o[2]]})')
-        elif n == 'atstatecopy': ops.append(f'(OAtStateCopy _ _ _ {i} {PHC[o[2]]})')
-        elif n == 'setpr': ops.append(f'(OSetPr _ _ _ {i} {PHC[o[2]]})')
-        elif n == 'setsc': ops.append(f'(OSetSc _ _ _ {i} W{o[2]} (set_{o[2]} {q(o[3])}))')
+        ops.append(coq_hop(o))
     qs = clist([f'(Q{fn} {PHC[ph]} {qo(T)} {qo(P)})' for fn, ph, T, P in case['queries']])
     exp = clist([clist([cpyv(v) for v in row]) for row in out['hvals']])
-    return f'(hist_case {lnc} {lnd} {tab(out["tabI"])} {tab(out["tabJ"])} {specs} ({clist(ops)} : list hop) {qs} {exp})'
+    cnqs = clist([PHC[ph] for fn, ph, T, P in case['queries']])
+    cnexp = clist([clist([cpyv(v) for v in row]) for row in out['cnvals']])
+    hvexp = clist([cpyv(v) for v in out['hvvals']])
+    return (f'(hist_case {lnc} {lnd} {tab(out["tabI"])} {tab(out["tabJ"])} {specs} ({clist(ops)} : list hop) {qs} {exp} '
+            f'{cnqs} {cnexp} {hvexp})')
 
 
 def coq_show(case, out):
@@ -785,6 +945,8 @@ def nontrivial(case, out):
 
 def classify(case, out):
     ks = ['type:' + case['type']]
+    if case['type'] == 'pkghist':
+        return ks + [f'pkghist-op:{k}:{o[0]}' for k, o in case['ops']] + [f'pkghist-obs:{o[0]}:' + (v[0] if v[0] != 'err' else v[1]) for o, v in zip(case['obs'], out.get('vals', []))]
     if case['type'] == 'pkg':
         return ks + ['pkg-op:' + o[0] for o in case['ops']] + [f'pkg-obs:{o[0]}:' + (v[0] if v[0] != 'err' else v[1]) for o, v in zip(case['obs'], out.get('vals', []))]
     if case['type'] == 'hist':
@@ -886,13 +1048,39 @@ def oracle_locked(spec, Ts, Ps):
 
 def oracle_hist(case):
     """after the history, every chemical's H / S must be consistent with ITS OWN current Cn, Hvap, Tm, Tb, Hfus, Sfus, S0"""
+    if case.get('check') == 'sfus_follows_setters':
+        store = [build_hist_chem(s) for s in case['chems']]
+        for o in case['ops']: apply_hist_op(store, o)
+        for k, c in enumerate(store):
+            if c.Tm and c.Hfus is not None and (c.Sfus is None or not close(c.Sfus, c.Hfus / c.Tm)):
+                dS = c.S('l', c.Tm, P_REF) - c.S('s', c.Tm, P_REF)
+                return (f'sfus_not_refreshed_by_setters: chemical #{k} after {[o[:1] + o[2:] for o in case["ops"]]}: Hfus = {c.Hfus}, Tm = {c.Tm} but Sfus = {c.Sfus}; '
+                        f'S(l,Tm) - S(s,Tm) = {dS}, not Hfus/Tm = {c.Hfus / c.Tm}')
+        return None
+    cnq = [['s', 300.], ['l', 300.], ['g', 300.], ['s', 350.], ['l', 350.], ['g', 350.]]
     store = [build_hist_chem(s) for s in case['chems']]
+    probe(store, cnq)
     for o in case['ops']:
         try: apply_hist_op(store, o)
         except (TypeError, ValueError, AttributeError, RuntimeError): pass
+        probe(store, cnq)               # users look at Cn / Hvap between edits
     P = P_REF
+    def now(handle, T):
+        # the handle's current model near T, from two temperatures it was never asked before
+        return 0.5 * (handle(T * (1 + 2. ** -20)) + handle(T * (1 - 2. ** -20)))
     for k, c in enumerate(store):
         tag = f'[chemical #{k} after {[o[0] for o in case["ops"]]}]'
+        for ph in ([c.locked_state] if c.locked_state else 'slg'):
+            hd = c.Cn if c.locked_state else getattr(c.Cn, ph)
+            for T in (300., 350.):          # 300 is the temperature every look ended with
+                if hd:
+                    seen = hd(T); cur = now(hd, T)
+                    if not close(seen, cur, 1e-7):
+                        return f'handle_returns_stale_value{tag}: Cn.{ph}({T}) returned {seen} but its current model gives {cur} next to {T}'
+        if c.Hvap and c.Tb:
+            seen = c.Hvap(c.Tb); cur = now(c.Hvap, c.Tb)
+            if not close(seen, cur, 1e-7):
+                return f'handle_returns_stale_value{tag}: Hvap(Tb) returned {seen} but its current model gives {cur} next to Tb'
         locked, pr = c.locked_state, c.phase_ref
         if locked:
             H, S, Cn = (lambda ph, T, P: c.H(T, P)), (lambda ph, T, P: c.S(T, P)), (lambda ph, T: c.Cn(T))
@@ -900,7 +1088,7 @@ def oracle_hist(case):
         else:
             H, S, Cn = c.H, c.S, c.Cn
             phases = 'slg'
-        complete_ = bool(c.Hvap) and c.Tm and c.Tb and c.Hvap(c.Tb)
+        complete_ = bool(c.Hvap) and c.Tm and c.Tb and now(c.Hvap, c.Tb)
         for ph in phases:
             if not locked and not complete_ and ph != pr: continue
             for T in (300., 350.):
@@ -915,7 +1103,7 @@ def oracle_hist(case):
         if not close(H(refph, T_REF, P), 0.): return f'wiring_not_own{tag}: H at the reference state = {H(refph, T_REF, P)}'
         if not close(S(refph, T_REF, P), c.S0): return f'wiring_not_own{tag}: S at the reference state = {S(refph, T_REF, P)} != S0 = {c.S0}'
         if not locked and complete_:
-            Tb, Tm, hv = c.Tb, c.Tm, c.Hvap(c.Tb)
+            Tb, Tm, hv = c.Tb, c.Tm, now(c.Hvap, c.Tb)
             if not close(H('g', Tb, P) - H('l', Tb, P), hv): return f'wiring_not_own{tag}: H(g,Tb) - H(l,Tb) = {H("g", Tb, P) - H("l", Tb, P)} but its own Hvap(Tb) = {hv}'
             if not close(S('g', Tb, P) - S('l', Tb, P), hv / Tb): return f'wiring_not_own{tag}: S(g,Tb) - S(l,Tb) = {S("g", Tb, P) - S("l", Tb, P)} but its own Hvap(Tb)/Tb = {hv / Tb}'
             if not close(H('l', Tm, P) - H('s', Tm, P), c.Hfus): return f'wiring_not_own{tag}: H(l,Tm) - H(s,Tm) = {H("l", Tm, P) - H("s", Tm, P)} but its own Hfus = {c.Hfus}'
@@ -950,6 +1138,35 @@ def oracle_mix_pressure(specs):
                 if not close(d, -R_GAS * ngas * math.log(Px / P_REF)):
                     return (f'mix_entropy_pressure: phase {phase!r}, mol={mol}: S_mix(P={Px}) - S_mix(P_ref) = {d}, expected '
                             f'-R n_gas ln(P/P_ref) = {-R_GAS * ngas * math.log(Px / P_REF)}')
+    return None
+
+
+def oracle_pkghist(case):
+    """after the whole history (packages built, chemicals edited, more packages derived): for EVERY package the mixture H / Cn
+    are the mole-weighted sums of what ITS chemicals report NOW, and a one-component flow has that component's entropy"""
+    store, pstore, oks = run_pkghist_ops(case)
+    T, P = 350., P_REF
+    for k, t in enumerate(pstore):
+        own = t.chemicals.tuple
+        n = len(own)
+        tag = f'[package #{k}, chemicals {[store.index(c) for c in own]}, after {[o[0] if kd == "pkg" else o[0] + ":" + str(o[2]) if o[0] == "setsc" else o[0] for kd, o in case["ops"]]}]'
+        mols = [[0.] * j + [2.] + [0.] * (n - j - 1) for j in range(n)] + [[1. + 0.5 * j for j in range(n)]]
+        def pure(f, c, ph):
+            return f(c)(T, P) if c.locked_state else f(c)(ph, T, P)
+        for phase in 'lgs':
+            try:
+                pH = [pure(lambda c: c.H, c, phase) for c in own]; pS = [pure(lambda c: c.S, c, phase) for c in own]
+                pC = [c.Cn(T) if c.locked_state else c.Cn(phase, T) for c in own]
+            except TypeError:
+                continue            # incomplete data for this phase: nothing to compare
+            for m in mols:
+                got, want = t.mixture.H(phase, m, T, P), sum(x * y for x, y in zip(m, pH))
+                if not close(got, want): return f'package_mixture_stale{tag}: mixture.H({phase!r}, {m}) = {got} but sum n_i H_i of its chemicals is now {want}'
+                got, want = t.mixture.Cn(phase, m, T), sum(x * y for x, y in zip(m, pC))
+                if not close(got, want): return f'package_mixture_stale{tag}: mixture.Cn({phase!r}, {m}) = {got} but sum n_i Cn_i of its chemicals is now {want}'
+                if sum(1 for x in m if x) == 1:
+                    got, want = t.mixture.S(phase, m, T, P), sum(x * y for x, y in zip(m, pS))
+                    if not close(got, want): return f'package_mixture_stale{tag}: mixture.S({phase!r}, {m}) = {got} for one component but n S_i is now {want}'
     return None
 
 
@@ -1037,6 +1254,8 @@ def oracle(case):
         return oracle_hist(case)
     if case['type'] == 'pkg':
         return oracle_pkg(case)
+    if case['type'] == 'pkghist':
+        return oracle_pkghist(case)
     if case['type'] == 'sfus':
         out = run_init_data(case)
         if out['stored_Hfus'] is not None and out['stored_Tm'] is not None and F(out['stored_Tm']) != 0:
@@ -1084,6 +1303,7 @@ def search_cases(rng, tier):
     for k in range(20 if tier == 'quick' else 200):
         out.append(gen_hist(rng))
         out.append(gen_pkg(rng))
+        out.append(gen_pkghist(rng))
     for k in range(40 if tier == 'quick' else 400):
         spec = gen_spec(rng, complete=True)
         spec['kind'], spec['sp'] = 'handle', None
@@ -1094,6 +1314,8 @@ def search_cases(rng, tier):
 def shrink(case):
     if case.get('type') == 'hist':
         return vf.shrink_list(case, 'ops', oracle)
+    if case.get('type') == 'pkghist':
+        return vf.shrink_list(dict(case, obs=[]), 'ops', oracle)
     if case.get('type') == 'pkg':
         # keep the observations consistent with the packages that remain: drop them, the oracle does not use them
         return vf.shrink_list(dict(case, obs=[]), 'ops', oracle)
@@ -1118,6 +1340,13 @@ def _pkg_spec(seed, pr):
 
 _PK = [_pkg_spec(11, 'l'), _pkg_spec(12, 'g'), _pkg_spec(13, 's'), _pkg_spec(14, 'l')]
 CORPUS = [
+    # a package exists, THEN a chemical is edited (each kind of setter / reset), then another package is derived
+    {'type': 'pkghist', 'chems': [_HA, _HB], 'ops': [['pkg', ['new', [0, 1]]], ['chem', ['setsc', 0, 'Tb', 400.5]], ['chem', ['setpr', 1, 'l']],
+                                                   ['pkg', ['subset', 0, [1, 0]]], ['chem', ['setsc', 0, 'S0', 40650.]], ['chem', ['setsc', 1, 'Hfus', 6010.5]],
+                                                   ['chem', ['setsc', 1, 'Sfus', 12.25]], ['pkg', ['ideal', 1]], ['chem', ['mutcn', 1, [24., 24., 24.]]],
+                                                   ['chem', ['copymodels', 0, 1, ['Hvap']]]],
+     'obs': [['H', 0, 'g', [1., 2.], 400., P_REF], ['S', 0, 'l', [2., 0.], 300., P_REF], ['S', 0, 's', [0., 1.], 250., 2 * P_REF], ['Cn', 0, 'l', [1., 1.], 300., P_REF],
+             ['H', 1, 's', [1., 2.], 250., P_REF], ['S', 1, 'g', [1., 0.], 400., P_REF], ['H', 2, 'l', [0.5, 0.25], 300., P_REF]], 'ln': [0., 1.]},
     # packages: the same chemicals in another order, strict subsets, extension, ideal()
     {'type': 'pkg', 'chems': _PK, 'ops': [['new', [0, 1, 2]], ['subset', 0, [2, 0, 1]], ['subset', 1, [1, 2]], ['extended', 0, [3, 1]],
                                        ['ideal', 1], ['subset', 4, [0, 1, 2]]],
@@ -1137,6 +1366,8 @@ CORPUS = [
      'obs': [['S', 'l', [1., 1.], 350., P_REF], ['S', 'l', [1., 0.], 350., P_REF], ['S', 'l', [0., 1.], 350., P_REF]], 'ln': [1., 1.]},
 ]
 WITNESSES = [
+    {'key': 'sfus_not_refreshed_by_setters',
+     'case': {'type': 'hist', 'check': 'sfus_follows_setters', 'chems': [_HA], 'ops': [['setsc', 0, 'Tm', 250.]], 'queries': _HQ, 'ln': [0., 1.]}},
     {'key': 'ideal_entropy_mixing_term',
      'case': {'type': 'mix', 'chems': [_witness_spec(1, 'l'), _witness_spec(2, 'l')], 'excess': False, 'Hex': [0., 0.], 'Sex': [0., 0.],
               'obs': [['S', 'l', [1., 1.], 350., P_REF]], 'ln': [0., 1.]}},
